@@ -21,7 +21,7 @@ import operator
 import re
 
 from .. import kernel, loader
-from ..envs import FaultyIterable, InjectedProducerFault
+from ..envs import FaultyIterable, InjectedProducerFault, bits_to_bytes
 from ..kernel import Engine, call
 
 # ---------------------------------------------------------------------------------------------------------
@@ -207,6 +207,8 @@ class EMut(Engine):
             'p_wild': g.pick([0.1, 0.3, 0.5]) if fault else 0.15,
             'ba0': g.chance(0.15),
             'lsb0': g.chance(0.2),
+            # what the subject is built from (the same bits every time): its history must not show in what a mutator does
+            'via': g.pick(['bin', 'bin', 'bytes', 'auto_bytes', 'auto_bytearray', 'auto_memoryview', 'bits_obj', 'hex']),
         }
         return cfg
 
@@ -246,7 +248,23 @@ class EMut(Engine):
             R.reset_options()
 
     def _build(self, bits):
-        return self.C(bin=bits) if bits else self.C()
+        if not bits:
+            return self.C()
+        via = self.cfg.get('via', 'bin')
+        whole = len(bits) % 8 == 0
+        if via == 'bytes':
+            return self.C(bytes=bits_to_bytes(bits), length=len(bits))
+        if via == 'auto_bytes' and whole:
+            return self.C(bits_to_bytes(bits))
+        if via == 'auto_bytearray' and whole:
+            return self.C(bytearray(bits_to_bytes(bits)))
+        if via == 'auto_memoryview' and whole:
+            return self.C(memoryview(bits_to_bytes(bits)))
+        if via == 'bits_obj':
+            return self.C(self.B.Bits(bin=bits))
+        if via == 'hex' and len(bits) % 4 == 0:
+            return self.C(hex=format(int(bits, 2), f'0{len(bits) // 4}x'))
+        return self.C(bin=bits)
 
     def _bin(self):
         st, v = call(lambda: self.s.bin)
@@ -1000,6 +1018,10 @@ class EMut(Engine):
                 made.append(p)
             elif t == 'iterable':
                 p = FaultyIterable(pos.get('ps', []), None)
+            elif t == 'oneshot':
+                p = iter(list(pos.get('ps', [])))            # positions that can be walked once only (iter(), map(), reversed() ...)
+            elif t == 'oneshot_gen':
+                p = (x for x in list(pos.get('ps', [])))
             else:
                 p = list(pos.get('ps', []))
             if op == 'set':
@@ -1418,7 +1440,7 @@ class EMut(Engine):
             ps = pos.get('ps', [])
             p = {'none': None, 'int': str(pos.get('p')),
                  'range': f'range({pos.get("a", 0)}, {pos.get("b", 0)}, {pos.get("c", 1) or 1})',
-                 'tuple': repr(tuple(ps)), 'faulty': f'F({ps!r}, {pos.get("k")!r})', 'iterable': f'F({ps!r}, None)'}.get(t, repr(ps))
+                 'tuple': repr(tuple(ps)), 'faulty': f'F({ps!r}, {pos.get("k")!r})', 'iterable': f'F({ps!r}, None)', 'oneshot': f'iter({ps!r})', 'oneshot_gen': f'(x for x in {ps!r})'}.get(t, repr(ps))
             first = repr(ev.get('value')) if op == 'set' else None
             args = ', '.join(x for x in (first, p) if x is not None)
             return f's.{op}({args})'
@@ -1727,7 +1749,7 @@ class EMut(Engine):
         ps = [self._index(g, n) if n else g.pos(0) for _ in range(cnt)]
         if ps and g.chance(self.cfg['p_wild'] * 0.3):
             ps[g.int(0, len(ps) - 1)] = g.pick([n, n + 1, -n - 1, None, 'a'])
-        t = g.pick(['list', 'tuple', 'iterable'])
+        t = g.pick(['list', 'tuple', 'iterable', 'oneshot', 'oneshot_gen'])
         if g.chance(self.cfg['p_pf'] * 2):
             return {'t': 'faulty', 'ps': ps, 'k': g.pick([0, len(ps) // 2, max(len(ps) - 1, 0), len(ps)])}
         return {'t': t, 'ps': ps}
